@@ -35,8 +35,10 @@ func verifFCodec() VerifCodec {
 
 // verifLeaf is one leaf of a filter tree, in its reference form.
 type verifLeaf struct {
-	kind int   // 0: indexed value == v; 1: key in {k1,k2}; 2: predicate value >= v
-	v    int64 // kinds 0, 2
+	kind int   // 0: indexed value in {v, w}; 1: key in {k1,k2}; 2: predicate value >= v; 3: raw-byte predicate value <= v
+	v    int64 // kinds 0, 2, 3
+	w    int64 // kind 0: second listed value (w == v with two: the value is listed twice)
+	two  bool  // kind 0: two values listed
 	k1   uint32
 	k2   uint32
 }
@@ -44,9 +46,11 @@ type verifLeaf struct {
 func (l verifLeaf) holds(k uint32, v int64) bool {
 	switch l.kind {
 	case 0:
-		return v == l.v
+		return v == l.v || (l.two && v == l.w)
 	case 1:
 		return k == l.k1 || k == l.k2
+	case 3:
+		return v <= l.v
 	}
 	return v >= l.v
 }
@@ -56,24 +60,45 @@ func (l verifLeaf) filter(idx *LookupIndex[uint32, verifEntry, int64], indexed b
 	switch l.kind {
 	case 0:
 		if indexed {
+			if l.two {
+				return idx.Filter(l.v, l.w)
+			}
 			return idx.Filter(l.v)
 		}
-		want := l.v
-		return Match[uint32, verifEntry](func(_ Context, e *verifEntry) (bool, error) { return e.V == want, nil })
+		want, want2 := l.v, l.w
+		if !l.two {
+			want2 = want
+		}
+		return Match[uint32, verifEntry](func(_ Context, e *verifEntry) (bool, error) { return e.V == want || e.V == want2, nil })
 	case 1:
 		if l.k1 == l.k2 {
 			return MatchKeys[uint32, verifEntry](l.k1)
 		}
 		return MatchKeys[uint32, verifEntry](l.k1, l.k2)
 	}
+	if l.kind == 3 {
+		// a predicate over the encoded bytes (the handle codec stores one handle byte), run before decoding
+		max := l.v
+		return MatchRaw[uint32, verifEntry](func(_, value []byte) (bool, error) {
+			if len(value) != 1 {
+				return false, errors.New("verif: unexpected encoded value")
+			}
+			return verifFEntries[value[0]].V <= max, nil
+		})
+	}
 	min := l.v
 	return Match[uint32, verifEntry](func(_ Context, e *verifEntry) (bool, error) { return e.V >= min, nil })
 }
 
 func verifNewLeaf(maxKey, maxVal int) verifLeaf {
-	l := verifLeaf{kind: verifLen("leaf-kind", 0, 2)}
+	l := verifLeaf{kind: verifLen("leaf-kind", 0, verifParam("kinds", 3))}
 	switch l.kind {
-	case 0, 2:
+	case 0:
+		l.v = int64(verifLen("leaf-value", 0, maxVal))
+		if l.two = verifBool("leaf-two-values"); l.two {
+			l.w = int64(verifLen("leaf-value2", int(l.v), maxVal))
+		}
+	case 2, 3:
 		l.v = int64(verifLen("leaf-value", 0, maxVal))
 	default:
 		// one key, or two different keys
